@@ -16,6 +16,7 @@ type GenOpts struct {
 	NoBadRows        bool   // no malformed rows (old csv): every logical record yields exactly one result of its own
 	Pathological     bool   // declarations may use xpaths the xpath engine does not come to an end with by itself (C03 only: each evaluation costs a million steps)
 	NumericFilter    bool   // the FINAL_OUTPUT target filter compares a field with a number (own scenario family: known finding)
+	UnmatchedTrailer bool   // old fixed-length, by_header_footer: a last line that no envelope declares may follow the trailer (own scenario family of an open known finding; C16 only)
 	TwoFilters       bool   // xml/json: the target xpath may carry two filters on its last step (own scenario family of an open known finding; C17 only)
 }
 
